@@ -9,8 +9,7 @@ void strerr_warn(const char *a, const char *b, const char *c, const char *d, con
 char *error_str(int e) { return "x"; }
 
 #ifdef P_QMESEARCH
-#define SB 64
-char sext[SB]; static char rawext[SB]; static char dashbuf[2] = { '-', 0 };
+char *sext, *rawext; static char dashbuf[2] = { '-', 0 };   /* sanitised and original extension: allocations of arbitrary size */
 int g_desc;      /* name under construction: 0 nothing, 1 ".qmail", 2 +dash, 3 +whole safe extension (exact), 4 +prefix of length g_pre, 5 +"default" */
 int g_pre, g_nprobes, g_last_pre, g_found, g_found_pre, g_exact_probed, g_K, g_K_probed, g_default_set, g_default_off;
 int stralloc_copys(stralloc *sa, char *s) { V_ASSERT(sa == &qme && s[0] == '.' && s[1] == 'q' && s[6] == 0, "C13: control file names start with .qmail"); g_desc = 1; return 1; }
@@ -32,9 +31,9 @@ int env_put2(char *n, char *v) { V_ASSERT(n[0] == 'D' && __CPROVER_same_object(v
 size_t strlen(const char *s) { V_ASSERT(s == rawext, "C13: supporting"); return safeext.len; }   /* ext and safeext have the same length */
 void h_qmesearch(void)
 {
-  int fd, cut; unsigned n = ND_UINT() % SB;
-  __CPROVER_havoc_object(sext);
-  safeext.s = sext; safeext.len = n; safeext.a = SB; ext = rawext; dash = dashbuf;
+  int fd, cut; unsigned n = ND_UINT(); V_ASSUME(n <= 0x3fffffff);
+  sext = malloc((size_t)n + 1); rawext = malloc((size_t)n + 1); V_ASSUME(sext && rawext); dashbuf[0] = '-'; dashbuf[1] = 0;
+  safeext.s = sext; safeext.len = n; safeext.a = n + 1; ext = rawext; dash = dashbuf;
   g_desc = g_nprobes = g_found = g_exact_probed = g_K_probed = g_default_set = 0; g_last_pre = 0x7fffffff; g_K = ND_INT();
   qmesearch(&fd, &cut);
   V_ASSERT(g_exact_probed, "C13: the exact name is tried first");
